@@ -46,6 +46,14 @@ func (fc *FuncCtx) sortOfTypeName(name string, sc *specCtx) (*Sort, types.Type) 
 		s, _ := fc.sortOfTypeName(name[2:], sc)
 		return SliceOf(s), nil
 	}
+	if strings.HasPrefix(name, "typeof(") && strings.HasSuffix(name, ")") {
+		// typeof(x): the Go type of the function's local variable (or parameter) x
+		vn := strings.TrimSpace(name[len("typeof(") : len(name)-1])
+		if objs := fc.localsByName[vn]; len(objs) >= 1 {
+			return fc.sortOf(objs[0].Type()), objs[0].Type()
+		}
+		panic(engineError{"typeof: unknown local " + vn})
+	}
 	if strings.HasPrefix(name, "map[") {
 		depth := 0
 		for i := 3; i < len(name); i++ {
@@ -55,8 +63,11 @@ func (fc *FuncCtx) sortOfTypeName(name string, sc *specCtx) (*Sort, types.Type) 
 			if name[i] == ']' {
 				depth--
 				if depth == 0 {
-					ks, _ := fc.sortOfTypeName(name[4:i], sc)
-					vs, _ := fc.sortOfTypeName(name[i+1:], sc)
+					ks, kt := fc.sortOfTypeName(name[4:i], sc)
+					vs, vt := fc.sortOfTypeName(name[i+1:], sc)
+					if kt != nil && vt != nil {
+						return MapOf(ks, vs), types.NewMap(kt, vt)
+					}
 					return MapOf(ks, vs), nil
 				}
 			}
@@ -429,7 +440,15 @@ func (fc *FuncCtx) evalSpec(st *State, e *SExpr, sc *specCtx) Val {
 			if !k.Sort.Eq(base.T.Sort.Key) {
 				k = fc.coerceTerm(k, base.T.Sort.Key)
 			}
-			return Val{T: Select(MapArr(base.T), k), Typ: et}
+			v := Select(MapArr(base.T), k)
+			if et != nil {
+				// as in Go: a missing key yields the zero value (same rule as the executable m[k])
+				zero := fc.zeroVal(et, "mz")
+				if len(zero.Args) == 0 && zero.Op != "mk-slice" && !zero.UF || zero.Op == "nil" || zero.Op == "lit" {
+					v = Ite(Select(MapDom(base.T), k), v, zero)
+				}
+			}
+			return Val{T: v, Typ: et}
 		case "V":
 			v := App("str$at", SInt, base.T, idx.T)
 			return Val{T: v, Typ: types.Typ[types.Uint8]}
@@ -655,6 +674,12 @@ func (fc *FuncCtx) callGhost(st *State, g *GhostFunc, args []Val, sc *specCtx) V
 	}
 	// defined: expand
 	n := &specCtx{names: map[string]Val{}, bound: sc.bound, old: sc.old, pos: token.NoPos, pkg: sc.pkg, callee: &calleeCtx{}, binds: sc.binds}
+	if g.PkgPath != "" {
+		if dp, ok := fc.eng.pkgs[g.PkgPath]; ok && dp.Types != nil {
+			// the body is written in the defining package's scope
+			n.pkg = dp.Types
+		}
+	}
 	for i, p := range g.Params {
 		_, pt := fc.sortOfTypeName(p.Type, sc)
 		typ := args[i].Typ
@@ -736,7 +761,7 @@ func (fc *FuncCtx) evalSpecCall(st *State, e *SExpr, sc *specCtx) Val {
 			}
 		}
 		if c := fc.eng.contractFor(fv.FnObj); c != nil && c.Pure {
-			return fc.applyContract(st, fv.FnObj, c, fv.Recv, args, resT, token.NoPos, false)
+			return fc.applyContract(st, fv.FnObj, c, fv.Recv, args, resT, token.NoPos, e.Name == "...")
 		}
 		return fc.defaultCall(st, fv.FnObj, fv.Recv, args, resT, token.NoPos)
 	}
